@@ -11,7 +11,7 @@ Open Scope N_scope.
 
 Record mfile := mkMF { f_day : N; f_no : N; f_log : bytes; f_idx : bytes }.
 
-(** ** listing order (filename_comparator): by date, then by the whole name as a string *)
+(** ** listing order (filename_comparator): by date, then by file number *)
 Definition suffix_of (no : N) : bytes := if no =? 0 then [] else 46 :: dec no.
 
 Fixpoint lex_ltb (a b : bytes) : bool :=
@@ -22,9 +22,10 @@ Fixpoint lex_ltb (a b : bytes) : bool :=
   | x :: a', y :: b' => if x <? y then true else if y <? x then false else lex_ltb a' b'
   end.
 
+(** same date: by number (no suffix = 0) *)
 Definition file_ltb (a b : mfile) : bool :=
   if f_day a <? f_day b then true else if f_day b <? f_day a then false
-  else lex_ltb (suffix_of (f_no a)) (suffix_of (f_no b)).
+  else f_no a <? f_no b.
 
 Fixpoint insert_file (x : mfile) (l : list mfile) : list mfile :=
   match l with
@@ -110,9 +111,10 @@ Definition mwrite (w : mlw) (ts : N) (items : list mitem) : mlw * wret :=
           if sec <? w_latest w then (w, WOk) else
           let w1 :=
             if w_latest w <? sec then
-              let w' := upd_cur w (fun f => mkMF (f_day f) (f_no f) (f_log f)
-                                                 (f_idx f ++ be64 sec ++ be64 (N.of_nat (length (f_log cf))))) in
-              if w_latest w / 86400 <? sec / 86400 then roll w' ts else w'
+              (* roll first: the index entry belongs to the file that gets the lines *)
+              let w' := if w_latest w / 86400 <? sec / 86400 then roll w ts else w in
+              upd_cur w' (fun f => mkMF (f_day f) (f_no f) (f_log f)
+                                        (f_idx f ++ be64 sec ++ be64 (N.of_nat (length (f_log f)))))
             else w in
           let lines := flat_map (fun i => to_line (with_ts ts i) ++ [10]) items in
           let w2 := upd_cur w1 (fun f => mkMF (f_day f) (f_no f) (f_log f ++ lines) (f_idx f)) in
@@ -193,9 +195,9 @@ Inductive offres := OffOk (off : N) | OffErr.
 (** find_offset_to_start over the index bytes: pairs (second, offset) until second >= begin *)
 Fixpoint find_offset (fuel : nat) (idx : bytes) (bsec : N) (off : N) : offres :=
   match fuel with
-  | O => OffOk off
+  | O => OffErr
   | S f =>
-      if (length idx <? 8)%nat then OffOk off else
+      if (length idx <? 8)%nat then OffErr else       (* no second at or after the begin time in this file *)
       let sec := be_val (firstn 8 idx) 0 in
       let rest := skipn 8 idx in
       if (length rest <? 8)%nat then OffErr else
